@@ -78,18 +78,19 @@ def hsig(h):
 
 
 def warmup(U, tier):
-    for uni in ("sys_real", "sys_twin"):
-        lp = _lp(U, uni)
-        for d in DEGS:
-            cm = _cm(lp, d)
-            for f in FORMS[:3]:
-                cm.compute(f)
-            cm.to_synodic(PT4)
-            cm.to_cm(SYN)
-        cm = _cm(lp, 4)
-        cm.to_synodic(PT2, ENERGY, "q3")
-        cm.poincare_map(ENERGY).compute(section_coord="q3", options=_mapopts(0))
-        lp.hamiltonian(4, "physical")
+    # The normal-form machinery has no per-System closures: compiling it once (one universe, one degree per code path)
+    # is enough for the forked workers; everything else is computed lazily and memoised per worker.
+    lp = _lp(U, "sys_real")
+    cm = _cm(lp, 4)
+    for f in FORMS[:3]:
+        cm.compute(f)
+    cm.to_synodic(PT4)
+    cm.to_cm(SYN)
+    cm.to_synodic(PT2, ENERGY, "q3")
+    cm.poincare_map(ENERGY).compute(section_coord="q3", options=_mapopts(0))
+    lp.hamiltonian(4, "physical")
+    lp.generating_functions(4)
+    _cm(lp, 5).compute("center_manifold_real")
 
 
 def map_rows(res):
